@@ -63,6 +63,8 @@ def render(e, names):
         return "action< %s, %s >" % ("vt::fam%d" % a[0] if a[0] else "nothing", ", ".join(render(x, names) for x in a[1:]))
     if op == "state":
         return "state< vt::S1, %s >" % ", ".join(render(x, names) for x in a)
+    if op == "state2":
+        return "state< vt::S2, %s >" % ", ".join(render(x, names) for x in a)
     if op == "control":
         return "control< vt::%s, %s >" % (["", "tc_hid", "tc_hid_uw", "tc_full", "tc_full_uw"][a[0]], ", ".join(render(x, names) for x in a[1:]))
     if op in ("if_apply", "apply", "apply0"):
@@ -102,7 +104,7 @@ def nullable(e, rules, seen=()):
             return nullable(a[0], rules, seen)
         return True
     subs = [x for x in a if isinstance(x, tuple)]
-    if op in ("seq", "must", "enable", "disable", "state", "action", "control", "try_catch_return_false",
+    if op in ("seq", "must", "enable", "disable", "state", "state2", "action", "control", "try_catch_return_false",
               "try_catch_raise_nested", "try_catch_any_return_false", "try_catch_any_raise_nested",
               "try_catch_std_return_false", "try_catch_std_raise_nested", "try_catch_type_return_false",
               "try_catch_type_raise_nested", "if_must", "plus", "rematch", "minus", "if_apply"):
